@@ -115,7 +115,8 @@ def run(ctx):
                 view = buf[a:b]
                 case = {"call": "ticc_labels on buffer[%d:%d] (%s) after earlier calls on other views of the same buffer" % (a, b, what),
                         "N": N, "W": W, "K": K, "seed": 900 + rep}
-                with ctx.guard("ticc_labels (views of one buffer)", case):
+                import io as _io, contextlib as _ctxlib
+                with ctx.guard("ticc_labels (views of one buffer)", case), _ctxlib.redirect_stdout(_io.StringIO()):
                     np.random.seed(7); _random.seed(7)
                     res = _fe.ticc_labels(view, window_size=W, num_clusters=K, label_switching_cost=2.0, iteration_limit=2,
                                           min_cluster_size=2, num_processors=1)
@@ -125,7 +126,7 @@ def run(ctx):
                 views = [buf[a:b] for (a, b) in spans]
                 case = {"call": "ticc_joint_labels on buffer slices %s after earlier calls on other slices of the same buffer" % (spans,),
                         "N": N, "W": W, "K": K, "seed": 900 + rep}
-                with ctx.guard("ticc_joint_labels (views of one buffer)", case):
+                with ctx.guard("ticc_joint_labels (views of one buffer)", case), _ctxlib.redirect_stdout(_io.StringIO()):
                     np.random.seed(7); _random.seed(7)
                     res = _fe.ticc_joint_labels(views, window_size=W, num_clusters=K, label_switching_cost=2.0, iteration_limit=2,
                                                 min_cluster_size=2, num_processors=1)
